@@ -564,9 +564,7 @@ func (a *Activation) typeAssert(st *State, ins *ssa.TypeAssert) {
 	if srt == SLoc {
 		// pointer payload: the same location iface_loc names (ghost state keyed by the
 		// dynamic value, e.g. avail(r), follows the assertion)
-		t := g.fresh("tav", SLoc)
-		g.assertLine(and(eq(t, v), eq(t, app(SLoc, "iface_loc", x.T))), t)
-		v = t
+		v = app(SLoc, "iface_loc", x.T)
 	}
 	if ins.CommaOk {
 		val := ite(ok, v, g.zero(ins.AssertedType))
